@@ -36,31 +36,31 @@ theorem effstim_flam_def (E : Env K) (thr atol rtol : K) (o : Obs K) (bm : Tree 
     pure, Except.pure]
   split_ifs <;> rfl
 
-/-- in every other density unit it is that FLAM value converted at the bandpass pivot wavelength -/
+/-- in every other density unit it is that FLAM value converted at the bandpass pivot wavelength — the pivot
+on the same wavelengths the integrals used (the caller's when given: repaired code, /repo 673f123) -/
 theorem effstim_converted_at_pivot (E : Env K) (thr atol rtol : K) (o : Obs K) (u : FluxUnit K) (v wp : K)
-    (bm : Tree K) (hbm : o.band.model = .ok bm)
+    (bm : Tree K) (wl : Option (List K)) (hbm : o.band.model = .ok bm)
     (hu : u = .fnu ∨ u = .photlam ∨ u = .photnu ∨ u = .abmag ∨ ∃ k, u = .jy k)
-    (hv : effstim E thr atol rtol o .flam none none none = .ok v) (hp : pivot E thr bm none = .ok wp) :
-    effstim E thr atol rtol o u none none none = convertOne E.P E.T (plainSamp wp) .flam u v := by
-  have key : ∀ (u' : FluxUnit K), (u' = .fnu ∨ u' = .photlam ∨ u' = .photnu ∨ u' = .abmag ∨ ∃ k, u' = .jy k) →
-      effstim E thr atol rtol o u' none none none =
-        (effstim E thr atol rtol o .flam none none none >>= fun val =>
-          pivot E thr bm none >>= fun wp' => convertOne E.P E.T (plainSamp wp') .flam u' val) := by
-    intro u' hu'
-    rcases hu' with rfl | rfl | rfl | rfl | ⟨k, rfl⟩ <;>
-    · simp only [effstim, hbm, bind, Except.bind, pure, Except.pure]
-      cases wavelengthsOr thr bm none <;> simp only []
-      rename_i xb
-      cases sampleTree E bm xb <;> simp only []
-      cases wavelengthsOr thr o.model none <;> simp only []
-      rename_i inw
-      cases sampleTree E o.model inw <;> simp only []
-      rename_i inp
-      cases convertFlux E.P E.T inw inp FluxUnit.photlam FluxUnit.flam none none <;> simp only []
-      rename_i inf
-      cases validateTotalflux |trapzXY inw (List.map (fun x => x.1 * x.2) (inw.zip inf))| <;> simp only []
-      cases validateTotalflux |trapzXY xb (List.map (fun x => x.1 * x.2) (xb.zip _))| <;> simp only []
-  rw [key u hu, hv, hp]; rfl
+    (hv : effstim E thr atol rtol o .flam wl none none = .ok v) (hp : pivot E thr bm wl = .ok wp) :
+    effstim E thr atol rtol o u wl none none = convertOne E.P E.T (plainSamp wp) .flam u v := by
+  have hd : IsDensity u := by
+    rcases hu with rfl | rfl | rfl | rfl | ⟨s, rfl⟩
+    exacts [IsDensity.fnu, IsDensity.photlam, IsDensity.photnu, IsDensity.abmag, IsDensity.jy s]
+  have key : effstim E thr atol rtol o u wl none none =
+      (effstim E thr atol rtol o .flam wl none none >>= fun val =>
+        pivot E thr bm wl >>= fun wp' => convertOne E.P E.T (plainSamp wp') .flam u val) := by
+    rw [effstim_pipeline E thr atol rtol o u hd, effstim_pipeline E thr atol rtol o .flam IsDensity.flam, hbm]
+    simp only [bind, Except.bind]
+    cases wavelengthsOr thr bm wl <;> simp only []
+    rename_i xb
+    cases sampleTree E bm xb <;> simp only []
+    cases wavelengthsOr thr o.model wl <;> simp only []
+    rename_i inw
+    cases sampleTree E o.model inw <;> simp only []
+    rw [effstimOf_pivot_branch E thr bm wl u hu]
+    unfold effstimOf
+    split_ifs <;> rfl
+  rw [key, hv, hp]; rfl
 
 /-! ### flat spectra -/
 
@@ -177,28 +177,34 @@ section round2
 /-- [definition, every density unit, any `wavelengths`] `effstim` samples the bandpass and the observation
 (`xb, yb`, `inw, inp`) and returns `effstimOf` of them: errors if `|∫λF_λ|` or `|∫λP|` is not positive, else
 the FLAM quotient itself (FLAM), its magnitude over the ST zero point (STmag), or its conversion at the
-pivot wavelength (every other density unit).  Every failing stage fails the call with that stage's error. -/
+pivot wavelength taken on the same `wavelengths` (every other density unit).  Every failing stage fails the call with that stage's error. -/
 theorem effstim_density_def (E : Env K) (thr atol rtol : K) (o : Obs K) (u : FluxUnit K) (hu : IsDensity u)
     (wl : Option (List K)) (area : Option K) (vega : Option (Tree K)) :
     effstim E thr atol rtol o u wl area vega =
       (o.band.model >>= fun bm => wavelengthsOr thr bm wl >>= fun xb => sampleTree E bm xb >>= fun yb =>
         wavelengthsOr thr o.model wl >>= fun inw => sampleTree E o.model inw >>= fun inp =>
-          effstimOf E thr bm u (inw.zip inp) (xb.zip yb)) :=
+          effstimOf E thr bm wl u (inw.zip inp) (xb.zip yb)) :=
   effstim_pipeline E thr atol rtol o u hu wl area vega
 
 example : IsDensity (FluxUnit.jy (1 / 1000 : ℚ)) := IsDensity.jy _
 
-/-- the pivot wavelength on the native sampling set: `sqrt |∫Pλ / ∫P/λ|` (0 when `∫P/λ = 0`) -/
-theorem pivot_def (E : Env K) (thr : K) (bm : Tree K) (xb yb : List K)
-    (hxb : wavesetOrErr thr bm = .ok xb) (hyb : sampleTree E bm xb = .ok yb) :
-    pivot E thr bm none = .ok (if trapz (overLam (xb.zip yb)) = 0 then 0
+/-- the pivot wavelength on the bandpass's sampling set (or on the caller's wavelengths):
+`sqrt |∫Pλ / ∫P/λ|` (0 when `∫P/λ = 0`) -/
+theorem pivot_def (E : Env K) (thr : K) (bm : Tree K) (wl : Option (List K)) (xb yb : List K)
+    (hxb : wavelengthsOr thr bm wl = .ok xb) (hyb : sampleTree E bm xb = .ok yb) :
+    pivot E thr bm wl = .ok (if trapz (overLam (xb.zip yb)) = 0 then 0
       else E.T.sqrt |trapz (timesLam (xb.zip yb)) / trapz (overLam (xb.zip yb))|) :=
-  pivot_eq E thr bm xb yb hxb hyb
+  pivot_eq E thr bm wl xb yb hxb hyb
 
 example (E : Env K) (thr : K) :
     pivot E thr Witness.band none = .ok (E.T.sqrt |(6 : K) / (3 / 4)|) := by
-  rw [pivot_def E thr _ _ _ (Witness.band_waveset thr) (Witness.band_samples E), Witness.band_A, Witness.band_B,
+  rw [pivot_def E thr _ none _ _ (Witness.band_grid thr) (Witness.band_samples E), Witness.band_A, Witness.band_B,
     if_neg (by norm_num)]
+
+example (E : Env K) (thr : K) :
+    pivot E thr Witness.band (some [4, 2]) = .ok (E.T.sqrt |(-6 : K) / (-(3 / 4))|) := by
+  rw [pivot_def E thr _ _ _ _ (Witness.band_grid_desc thr) (Witness.band_samples_desc E), Witness.band_A_desc,
+    Witness.band_B_desc, if_neg (by norm_num)]
 
 /-- a successful FLAM effective stimulus is positive -/
 theorem effstim_flam_pos (E : Env K) (thr atol rtol : K) (o : Obs K) (wl : Option (List K)) (v : K)
@@ -250,92 +256,95 @@ theorem effstim_stmag_def (E : Env K) (thr atol rtol : K) (o : Obs K) (wl : Opti
 
 /-- … which is also the FLAM value converted to STmag at any non-zero wavelength, in particular at the
 bandpass pivot: with `effstim_converted_at_pivot` every density unit is "FLAM converted at the pivot" -/
-theorem effstim_stmag_converted_at_pivot (E : Env K) (hP : E.P.Pos) (thr atol rtol : K) (o : Obs K) (v wp : K)
-    (hv : effstim E thr atol rtol o .flam none none none = .ok v) (hwp : wp ≠ 0) :
-    effstim E thr atol rtol o .stmag none none none = convertOne E.P E.T (plainSamp wp) .flam .stmag v := by
+theorem effstim_stmag_converted_at_pivot (E : Env K) (hP : E.P.Pos) (thr atol rtol : K) (o : Obs K) (wl : Option (List K)) (v wp : K)
+    (hv : effstim E thr atol rtol o .flam wl none none = .ok v) (hwp : wp ≠ 0) :
+    effstim E thr atol rtol o .stmag wl none none = convertOne E.P E.T (plainSamp wp) .flam .stmag v := by
   rw [effstim_stmag_def, hv, convert_flam_stmag hP wp v hwp]; rfl
 
 /-! ### the value in each unit (`v` the FLAM value, `wp` the pivot wavelength) -/
 
 /-- PHOTLAM: `v·λ_p/(hc)` -/
-theorem effstim_photlam_value (E : Env K) (thr atol rtol : K) (o : Obs K) (v wp : K) (bm : Tree K)
-    (hbm : o.band.model = .ok bm) (hv : effstim E thr atol rtol o .flam none none none = .ok v)
-    (hp : pivot E thr bm none = .ok wp) :
-    effstim E thr atol rtol o .photlam none none none = .ok (v * wp / (E.P.h * E.P.c)) := by
-  rw [effstim_converted_at_pivot E thr atol rtol o .photlam v wp bm hbm (by simp) hv hp, convert_flam_photlam]
+theorem effstim_photlam_value (E : Env K) (thr atol rtol : K) (o : Obs K) (v wp : K) (bm : Tree K) (wl : Option (List K))
+    (hbm : o.band.model = .ok bm) (hv : effstim E thr atol rtol o .flam wl none none = .ok v)
+    (hp : pivot E thr bm wl = .ok wp) :
+    effstim E thr atol rtol o .photlam wl none none = .ok (v * wp / (E.P.h * E.P.c)) := by
+  rw [effstim_converted_at_pivot E thr atol rtol o .photlam v wp bm wl hbm (by simp) hv hp, convert_flam_photlam]
 
 /-- PHOTNU: `v·λ_p/(hc)·λ_p²/c` -/
-theorem effstim_photnu_value (E : Env K) (thr atol rtol : K) (o : Obs K) (v wp : K) (bm : Tree K)
-    (hbm : o.band.model = .ok bm) (hv : effstim E thr atol rtol o .flam none none none = .ok v)
-    (hp : pivot E thr bm none = .ok wp) :
-    effstim E thr atol rtol o .photnu none none none = .ok (v * wp / (E.P.h * E.P.c) * wp ^ 2 / E.P.c) := by
-  rw [effstim_converted_at_pivot E thr atol rtol o .photnu v wp bm hbm (by simp) hv hp, convert_flam_photnu]
+theorem effstim_photnu_value (E : Env K) (thr atol rtol : K) (o : Obs K) (v wp : K) (bm : Tree K) (wl : Option (List K))
+    (hbm : o.band.model = .ok bm) (hv : effstim E thr atol rtol o .flam wl none none = .ok v)
+    (hp : pivot E thr bm wl = .ok wp) :
+    effstim E thr atol rtol o .photnu wl none none = .ok (v * wp / (E.P.h * E.P.c) * wp ^ 2 / E.P.c) := by
+  rw [effstim_converted_at_pivot E thr atol rtol o .photnu v wp bm wl hbm (by simp) hv hp, convert_flam_photnu]
 
 /-- FNU: `v·λ_p²/c` -/
-theorem effstim_fnu_value (E : Env K) (hP : E.P.Pos) (thr atol rtol : K) (o : Obs K) (v wp : K) (bm : Tree K)
-    (hbm : o.band.model = .ok bm) (hv : effstim E thr atol rtol o .flam none none none = .ok v)
-    (hp : pivot E thr bm none = .ok wp) (hwp : wp ≠ 0) :
-    effstim E thr atol rtol o .fnu none none none = .ok (v * wp ^ 2 / E.P.c) := by
-  rw [effstim_converted_at_pivot E thr atol rtol o .fnu v wp bm hbm (by simp) hv hp, convert_flam_fnu hP wp v hwp]
+theorem effstim_fnu_value (E : Env K) (hP : E.P.Pos) (thr atol rtol : K) (o : Obs K) (v wp : K) (bm : Tree K) (wl : Option (List K))
+    (hbm : o.band.model = .ok bm) (hv : effstim E thr atol rtol o .flam wl none none = .ok v)
+    (hp : pivot E thr bm wl = .ok wp) (hwp : wp ≠ 0) :
+    effstim E thr atol rtol o .fnu wl none none = .ok (v * wp ^ 2 / E.P.c) := by
+  rw [effstim_converted_at_pivot E thr atol rtol o .fnu v wp bm wl hbm (by simp) hv hp, convert_flam_fnu hP wp v hwp]
 
 /-- Jy with prefix scale `s`: `v·λ_p²/c / (s·1e-23)` -/
-theorem effstim_jy_value (E : Env K) (hP : E.P.Pos) (thr atol rtol : K) (o : Obs K) (v wp s : K) (bm : Tree K)
-    (hbm : o.band.model = .ok bm) (hv : effstim E thr atol rtol o .flam none none none = .ok v)
-    (hp : pivot E thr bm none = .ok wp) (hwp : wp ≠ 0) :
-    effstim E thr atol rtol o (.jy s) none none none = .ok (v * wp ^ 2 / E.P.c / (s * E.P.jyFnu)) := by
-  rw [effstim_converted_at_pivot E thr atol rtol o (.jy s) v wp bm hbm
+theorem effstim_jy_value (E : Env K) (hP : E.P.Pos) (thr atol rtol : K) (o : Obs K) (v wp s : K) (bm : Tree K) (wl : Option (List K))
+    (hbm : o.band.model = .ok bm) (hv : effstim E thr atol rtol o .flam wl none none = .ok v)
+    (hp : pivot E thr bm wl = .ok wp) (hwp : wp ≠ 0) :
+    effstim E thr atol rtol o (.jy s) wl none none = .ok (v * wp ^ 2 / E.P.c / (s * E.P.jyFnu)) := by
+  rw [effstim_converted_at_pivot E thr atol rtol o (.jy s) v wp bm wl hbm
     (Or.inr (Or.inr (Or.inr (Or.inr ⟨s, rfl⟩)))) hv hp, convert_flam_jy hP wp v s hwp]
 
 /-- ABmag: the magnitude of the FNU value over the AB zero-point flux -/
-theorem effstim_abmag_value (E : Env K) (hP : E.P.Pos) (thr atol rtol : K) (o : Obs K) (v wp : K) (bm : Tree K)
-    (hbm : o.band.model = .ok bm) (hv : effstim E thr atol rtol o .flam none none none = .ok v)
-    (hp : pivot E thr bm none = .ok wp) (hwp : wp ≠ 0) :
-    effstim E thr atol rtol o .abmag none none none = toMag E.T (v * wp ^ 2 / E.P.c / E.P.abZero) := by
-  rw [effstim_converted_at_pivot E thr atol rtol o .abmag v wp bm hbm (by simp) hv hp,
+theorem effstim_abmag_value (E : Env K) (hP : E.P.Pos) (thr atol rtol : K) (o : Obs K) (v wp : K) (bm : Tree K) (wl : Option (List K))
+    (hbm : o.band.model = .ok bm) (hv : effstim E thr atol rtol o .flam wl none none = .ok v)
+    (hp : pivot E thr bm wl = .ok wp) (hwp : wp ≠ 0) :
+    effstim E thr atol rtol o .abmag wl none none = toMag E.T (v * wp ^ 2 / E.P.c / E.P.abZero) := by
+  rw [effstim_converted_at_pivot E thr atol rtol o .abmag v wp bm wl hbm (by simp) hv hp,
     convert_flam_abmag hP wp v hwp]
 
 /-- STmag is `−2.5 log₁₀` of the FLAM result minus the zero point `zp` (`stZero = 10^(−0.4·zp)`, zp = 21.10) -/
-theorem effstim_stmag_of_flam (E : Env K) (hT : E.T.Lawful) (thr atol rtol : K) (o : Obs K) (v zp : K)
+theorem effstim_stmag_of_flam (E : Env K) (hT : E.T.Lawful) (thr atol rtol : K) (o : Obs K) (wl : Option (List K)) (v zp : K)
     (hz : E.P.stZero = E.T.pow10 (-(2/5) * zp))
-    (hv : effstim E thr atol rtol o .flam none none none = .ok v) :
-    effstim E thr atol rtol o .stmag none none none = .ok (-(5/2) * E.T.log10 v - zp) := by
-  have hpos := effstim_flam_pos E thr atol rtol o none v hv
+    (hv : effstim E thr atol rtol o .flam wl none none = .ok v) :
+    effstim E thr atol rtol o .stmag wl none none = .ok (-(5/2) * E.T.log10 v - zp) := by
+  have hpos := effstim_flam_pos E thr atol rtol o wl v hv
   rw [effstim_stmag_def, hv, hz]
   exact mag_is_log_of_linear E.T hT v zp hpos
 
 /-- ABmag is `−2.5 log₁₀` of the FNU result minus the zero point `zp` (`abZero = 10^(−0.4·zp)`, zp = 48.60) -/
 theorem effstim_abmag_of_fnu (E : Env K) (hP : E.P.Pos) (hT : E.T.Lawful) (thr atol rtol : K) (o : Obs K)
-    (v wp f zp : K) (bm : Tree K) (hz : E.P.abZero = E.T.pow10 (-(2/5) * zp))
-    (hbm : o.band.model = .ok bm) (hv : effstim E thr atol rtol o .flam none none none = .ok v)
-    (hp : pivot E thr bm none = .ok wp) (hwp : wp ≠ 0)
-    (hf : effstim E thr atol rtol o .fnu none none none = .ok f) :
-    effstim E thr atol rtol o .abmag none none none = .ok (-(5/2) * E.T.log10 f - zp) := by
-  have hpos := effstim_flam_pos E thr atol rtol o none v hv
-  rw [effstim_fnu_value E hP thr atol rtol o v wp bm hbm hv hp hwp] at hf
+    (v wp f zp : K) (bm : Tree K) (wl : Option (List K)) (hz : E.P.abZero = E.T.pow10 (-(2/5) * zp))
+    (hbm : o.band.model = .ok bm) (hv : effstim E thr atol rtol o .flam wl none none = .ok v)
+    (hp : pivot E thr bm wl = .ok wp) (hwp : wp ≠ 0)
+    (hf : effstim E thr atol rtol o .fnu wl none none = .ok f) :
+    effstim E thr atol rtol o .abmag wl none none = .ok (-(5/2) * E.T.log10 f - zp) := by
+  have hpos := effstim_flam_pos E thr atol rtol o wl v hv
+  rw [effstim_fnu_value E hP thr atol rtol o v wp bm wl hbm hv hp hwp] at hf
   injection hf with hf
   have hfpos : 0 < f := by
     rw [← hf]; exact div_pos (mul_pos hpos (by positivity)) hP.c
-  rw [effstim_abmag_value E hP thr atol rtol o v wp bm hbm hv hp hwp, hf, hz]
+  rw [effstim_abmag_value E hP thr atol rtol o v wp bm wl hbm hv hp hwp, hf, hz]
   exact mag_is_log_of_linear E.T hT f zp hfpos
 
 /-! ### flat spectra, end to end
 
 `o.model = ConstFlux1D(v, u) × bandpass`: the observation of a source whose flux is the constant `v` in
-unit `u`.  The hypotheses are what the computation needs: the bandpass has a sampling set `xb` (validated,
-hence positive wavelengths) with samples `yb`, `∫λP ≠ 0`, and — for the frequency-density units, whose
+unit `u`, sampled on the bandpass's own sampling set (`wl = none`) or on any wavelengths the caller gives
+(`wl = some w`, ascending or descending; on the repaired code the pivot is taken on the same wavelengths,
+so the frequency-density units hold there too).  The hypotheses are what the computation needs: the wavelengths
+`xb` used are valid (hence positive) with bandpass samples `yb`, `∫λP ≠ 0`, and — for the frequency-density units, whose
 result goes through the pivot wavelength — `∫P/λ ≠ 0`. -/
 
 section flat
 variable (E : Env K) (thr atol rtol : K) (o : Obs K) (v : K) (bm : Tree K) (xb yb : List K)
+  (wl : Option (List K))
 
 /-- a spectrum flat at `v > 0` in FLAM has effective stimulus `v` FLAM -/
 theorem effstim_flat_flam_model (hP : E.P.Pos)
     (hmodel : o.model = .bin .mul (.leaf (.constFlux v .flam)) bm) (hbm : o.band.model = .ok bm)
-    (hxb : wavesetOrErr thr bm = .ok xb) (hyb : sampleTree E bm xb = .ok yb)
+    (hxb : wavelengthsOr thr bm wl = .ok xb) (hyb : sampleTree E bm xb = .ok yb)
     (hv : 0 < v) (hB : trapz (timesLam (xb.zip yb)) ≠ 0) :
-    effstim E thr atol rtol o .flam none none none = .ok v := by
-  have hpos : ∀ p ∈ xb.zip yb, p.1 ≠ 0 := fun p hp => ne_of_gt (wavesetOrErr_pos hxb p.1 (List.of_mem_zip hp).1)
-  rw [effstim_flat_reduce E thr atol rtol o .flam IsDensity.flam v bm xb yb (fun x => v * x / (E.P.h * E.P.c))
+    effstim E thr atol rtol o .flam wl none none = .ok v := by
+  have hpos : ∀ p ∈ xb.zip yb, p.1 ≠ 0 := fun p hp => ne_of_gt (wavelengthsOr_pos hxb p.1 (List.of_mem_zip hp).1)
+  rw [effstim_flat_reduce E thr atol rtol o .flam IsDensity.flam wl v bm xb yb (fun x => v * x / (E.P.h * E.P.c))
     hmodel hbm hxb hyb (fun x _ => rfl)]
   obtain ⟨h1, h2⟩ := effstimFlam_flamlike E.P hP v hv (xb.zip yb) hpos hB
   have hB' : 0 < |trapz (timesLam (xb.zip yb))| := abs_pos.mpr hB
@@ -346,12 +355,12 @@ theorem effstim_flat_flam_model (hP : E.P.Pos)
 /-- a spectrum flat at `m` STmag (any `m`) has effective stimulus `m` STmag -/
 theorem effstim_flat_stmag_model (hP : E.P.Pos) (hT : E.T.Lawful)
     (hmodel : o.model = .bin .mul (.leaf (.constFlux v .stmag)) bm) (hbm : o.band.model = .ok bm)
-    (hxb : wavesetOrErr thr bm = .ok xb) (hyb : sampleTree E bm xb = .ok yb)
+    (hxb : wavelengthsOr thr bm wl = .ok xb) (hyb : sampleTree E bm xb = .ok yb)
     (hB : trapz (timesLam (xb.zip yb)) ≠ 0) :
-    effstim E thr atol rtol o .stmag none none none = .ok v := by
-  have hpos : ∀ p ∈ xb.zip yb, p.1 ≠ 0 := fun p hp => ne_of_gt (wavesetOrErr_pos hxb p.1 (List.of_mem_zip hp).1)
+    effstim E thr atol rtol o .stmag wl none none = .ok v := by
+  have hpos : ∀ p ∈ xb.zip yb, p.1 ≠ 0 := fun p hp => ne_of_gt (wavelengthsOr_pos hxb p.1 (List.of_mem_zip hp).1)
   have ha : 0 < ofMag E.T v * E.P.stZero := mul_pos (ofMag_pos hT v) hP.st
-  rw [effstim_flat_reduce E thr atol rtol o .stmag IsDensity.stmag v bm xb yb
+  rw [effstim_flat_reduce E thr atol rtol o .stmag IsDensity.stmag wl v bm xb yb
     (fun x => ofMag E.T v * E.P.stZero * x / (E.P.h * E.P.c)) hmodel hbm hxb hyb (fun x _ => rfl)]
   obtain ⟨h1, h2⟩ := effstimFlam_flamlike E.P hP _ ha (xb.zip yb) hpos hB
   have hB' : 0 < |trapz (timesLam (xb.zip yb))| := abs_pos.mpr hB
@@ -364,37 +373,37 @@ theorem effstim_flat_stmag_model (hP : E.P.Pos) (hT : E.T.Lawful)
 /-- a spectrum flat at `v > 0` in FNU has effective stimulus `v` FNU -/
 theorem effstim_flat_fnu_model (hP : E.P.Pos) (hT : E.T.Lawful)
     (hmodel : o.model = .bin .mul (.leaf (.constFlux v .fnu)) bm) (hbm : o.band.model = .ok bm)
-    (hxb : wavesetOrErr thr bm = .ok xb) (hyb : sampleTree E bm xb = .ok yb)
+    (hxb : wavelengthsOr thr bm wl = .ok xb) (hyb : sampleTree E bm xb = .ok yb)
     (hv : 0 < v) (hA : trapz (overLam (xb.zip yb)) ≠ 0) (hB : trapz (timesLam (xb.zip yb)) ≠ 0) :
-    effstim E thr atol rtol o .fnu none none none = .ok v := by
-  have hpos : ∀ p ∈ xb.zip yb, p.1 ≠ 0 := fun p hp => ne_of_gt (wavesetOrErr_pos hxb p.1 (List.of_mem_zip hp).1)
-  rw [effstim_flat_reduce E thr atol rtol o .fnu IsDensity.fnu v bm xb yb
+    effstim E thr atol rtol o .fnu wl none none = .ok v := by
+  have hpos : ∀ p ∈ xb.zip yb, p.1 ≠ 0 := fun p hp => ne_of_gt (wavelengthsOr_pos hxb p.1 (List.of_mem_zip hp).1)
+  rw [effstim_flat_reduce E thr atol rtol o .fnu IsDensity.fnu wl v bm xb yb
     (fun x => v * E.P.c / x ^ 2 * x / (E.P.h * E.P.c)) hmodel hbm hxb hyb (fun x _ => rfl)]
   obtain ⟨h1, hne, h3⟩ := effstimFlam_fnulike E.P hP E.T hT v hv (xb.zip yb) hpos hA hB
   have hA' : 0 < |trapz (overLam (xb.zip yb))| := abs_pos.mpr hA
   have hB' : 0 < |trapz (timesLam (xb.zip yb))| := abs_pos.mpr hB
-  rw [effstimOf_pivot_branch E thr bm .fnu (Or.inl rfl),
+  rw [effstimOf_pivot_branch E thr bm wl .fnu (Or.inl rfl),
     if_neg (by rw [h1]; exact not_le.mpr (mul_pos (mul_pos hv hP.c) hA')), if_neg (not_le.mpr hB'),
-    pivot_eq E thr bm xb yb hxb hyb]
+    pivot_eq E thr bm wl xb yb hxb hyb]
   simp only [bind, Except.bind]
   rw [convert_flam_fnu hP _ _ hne, h3]
 
 /-- a spectrum flat at `v > 0` in Jy (or a prefixed Jansky worth `s > 0` Jy) has effective stimulus `v` in that unit -/
 theorem effstim_flat_jy_model (hP : E.P.Pos) (hT : E.T.Lawful) (s : K) (hs : 0 < s)
     (hmodel : o.model = .bin .mul (.leaf (.constFlux v (.jy s))) bm) (hbm : o.band.model = .ok bm)
-    (hxb : wavesetOrErr thr bm = .ok xb) (hyb : sampleTree E bm xb = .ok yb)
+    (hxb : wavelengthsOr thr bm wl = .ok xb) (hyb : sampleTree E bm xb = .ok yb)
     (hv : 0 < v) (hA : trapz (overLam (xb.zip yb)) ≠ 0) (hB : trapz (timesLam (xb.zip yb)) ≠ 0) :
-    effstim E thr atol rtol o (.jy s) none none none = .ok v := by
-  have hpos : ∀ p ∈ xb.zip yb, p.1 ≠ 0 := fun p hp => ne_of_gt (wavesetOrErr_pos hxb p.1 (List.of_mem_zip hp).1)
+    effstim E thr atol rtol o (.jy s) wl none none = .ok v := by
+  have hpos : ∀ p ∈ xb.zip yb, p.1 ≠ 0 := fun p hp => ne_of_gt (wavelengthsOr_pos hxb p.1 (List.of_mem_zip hp).1)
   have hb : 0 < v * s * E.P.jyFnu := mul_pos (mul_pos hv hs) hP.jy
-  rw [effstim_flat_reduce E thr atol rtol o (.jy s) (IsDensity.jy s) v bm xb yb
+  rw [effstim_flat_reduce E thr atol rtol o (.jy s) (IsDensity.jy s) wl v bm xb yb
     (fun x => v * s * E.P.jyFnu * E.P.c / x ^ 2 * x / (E.P.h * E.P.c)) hmodel hbm hxb hyb (fun x _ => rfl)]
   obtain ⟨h1, hne, h3⟩ := effstimFlam_fnulike E.P hP E.T hT _ hb (xb.zip yb) hpos hA hB
   have hA' : 0 < |trapz (overLam (xb.zip yb))| := abs_pos.mpr hA
   have hB' : 0 < |trapz (timesLam (xb.zip yb))| := abs_pos.mpr hB
-  rw [effstimOf_pivot_branch E thr bm (.jy s) (Or.inr (Or.inr (Or.inr (Or.inr ⟨s, rfl⟩)))),
+  rw [effstimOf_pivot_branch E thr bm wl (.jy s) (Or.inr (Or.inr (Or.inr (Or.inr ⟨s, rfl⟩)))),
     if_neg (by rw [h1]; exact not_le.mpr (mul_pos (mul_pos hb hP.c) hA')), if_neg (not_le.mpr hB'),
-    pivot_eq E thr bm xb yb hxb hyb]
+    pivot_eq E thr bm wl xb yb hxb hyb]
   simp only [bind, Except.bind]
   rw [convert_flam_jy hP _ _ s hne, h3]
   have h1 := ne_of_gt hs; have h2 := ne_of_gt hP.jy
@@ -403,19 +412,19 @@ theorem effstim_flat_jy_model (hP : E.P.Pos) (hT : E.T.Lawful) (s : K) (hs : 0 <
 /-- a spectrum flat at `m` ABmag (any `m`) has effective stimulus `m` ABmag -/
 theorem effstim_flat_abmag_model (hP : E.P.Pos) (hT : E.T.Lawful)
     (hmodel : o.model = .bin .mul (.leaf (.constFlux v .abmag)) bm) (hbm : o.band.model = .ok bm)
-    (hxb : wavesetOrErr thr bm = .ok xb) (hyb : sampleTree E bm xb = .ok yb)
+    (hxb : wavelengthsOr thr bm wl = .ok xb) (hyb : sampleTree E bm xb = .ok yb)
     (hA : trapz (overLam (xb.zip yb)) ≠ 0) (hB : trapz (timesLam (xb.zip yb)) ≠ 0) :
-    effstim E thr atol rtol o .abmag none none none = .ok v := by
-  have hpos : ∀ p ∈ xb.zip yb, p.1 ≠ 0 := fun p hp => ne_of_gt (wavesetOrErr_pos hxb p.1 (List.of_mem_zip hp).1)
+    effstim E thr atol rtol o .abmag wl none none = .ok v := by
+  have hpos : ∀ p ∈ xb.zip yb, p.1 ≠ 0 := fun p hp => ne_of_gt (wavelengthsOr_pos hxb p.1 (List.of_mem_zip hp).1)
   have hb : 0 < ofMag E.T v * E.P.abZero := mul_pos (ofMag_pos hT v) hP.ab
-  rw [effstim_flat_reduce E thr atol rtol o .abmag IsDensity.abmag v bm xb yb
+  rw [effstim_flat_reduce E thr atol rtol o .abmag IsDensity.abmag wl v bm xb yb
     (fun x => ofMag E.T v * E.P.abZero * E.P.c / x ^ 2 * x / (E.P.h * E.P.c)) hmodel hbm hxb hyb (fun x _ => rfl)]
   obtain ⟨h1, hne, h3⟩ := effstimFlam_fnulike E.P hP E.T hT _ hb (xb.zip yb) hpos hA hB
   have hA' : 0 < |trapz (overLam (xb.zip yb))| := abs_pos.mpr hA
   have hB' : 0 < |trapz (timesLam (xb.zip yb))| := abs_pos.mpr hB
-  rw [effstimOf_pivot_branch E thr bm .abmag (Or.inr (Or.inr (Or.inr (Or.inl rfl)))),
+  rw [effstimOf_pivot_branch E thr bm wl .abmag (Or.inr (Or.inr (Or.inr (Or.inl rfl)))),
     if_neg (by rw [h1]; exact not_le.mpr (mul_pos (mul_pos hb hP.c) hA')), if_neg (not_le.mpr hB'),
-    pivot_eq E thr bm xb yb hxb hyb]
+    pivot_eq E thr bm wl xb yb hxb hyb]
   simp only [bind, Except.bind]
   rw [convert_flam_abmag hP _ _ hne, h3]
   have hz := ne_of_gt hP.ab
@@ -434,37 +443,37 @@ noncomputable def wE : Env ℝ := ⟨Witness.phys, Transc.real⟩
 
 example (E : Env K) (hP : E.P.Pos) (thr atol rtol : K) :
     effstim E thr atol rtol (obs (.leaf (.constFlux 3 .flam))) .flam none none none = .ok 3 :=
-  effstim_flat_flam_model E thr atol rtol _ 3 band [2, 4] [1, 1] hP rfl rfl (band_waveset thr) (band_samples E)
+  effstim_flat_flam_model E thr atol rtol _ 3 band [2, 4] [1, 1] none hP rfl rfl (band_grid thr) (band_samples E)
     (by norm_num) (by rw [band_B]; norm_num)
 
 example (thr atol rtol m : ℝ) :
     effstim wE thr atol rtol (obs (.leaf (.constFlux m .stmag))) .stmag none none none = .ok m :=
-  effstim_flat_stmag_model wE thr atol rtol _ m band [2, 4] [1, 1] phys_pos Transc.real_lawful rfl rfl
-    (band_waveset thr) (band_samples wE) (by rw [band_B]; norm_num)
+  effstim_flat_stmag_model wE thr atol rtol _ m band [2, 4] [1, 1] none phys_pos Transc.real_lawful rfl rfl
+    (band_grid thr) (band_samples wE) (by rw [band_B]; norm_num)
 
 example (thr atol rtol : ℝ) :
     effstim wE thr atol rtol (obs (.leaf (.constFlux 3 .fnu))) .fnu none none none = .ok 3 :=
-  effstim_flat_fnu_model wE thr atol rtol _ 3 band [2, 4] [1, 1] phys_pos Transc.real_lawful rfl rfl
-    (band_waveset thr) (band_samples wE) (by norm_num) (by rw [band_A]; norm_num) (by rw [band_B]; norm_num)
+  effstim_flat_fnu_model wE thr atol rtol _ 3 band [2, 4] [1, 1] none phys_pos Transc.real_lawful rfl rfl
+    (band_grid thr) (band_samples wE) (by norm_num) (by rw [band_A]; norm_num) (by rw [band_B]; norm_num)
 
 example (thr atol rtol : ℝ) :
     effstim wE thr atol rtol (obs (.leaf (.constFlux 3 (.jy (1 / 1000))))) (.jy (1 / 1000)) none none none = .ok 3 :=
-  effstim_flat_jy_model wE thr atol rtol _ 3 band [2, 4] [1, 1] phys_pos Transc.real_lawful (1 / 1000) (by norm_num)
-    rfl rfl (band_waveset thr) (band_samples wE) (by norm_num) (by rw [band_A]; norm_num) (by rw [band_B]; norm_num)
+  effstim_flat_jy_model wE thr atol rtol _ 3 band [2, 4] [1, 1] none phys_pos Transc.real_lawful (1 / 1000) (by norm_num)
+    rfl rfl (band_grid thr) (band_samples wE) (by norm_num) (by rw [band_A]; norm_num) (by rw [band_B]; norm_num)
 
 example (thr atol rtol m : ℝ) :
     effstim wE thr atol rtol (obs (.leaf (.constFlux m .abmag))) .abmag none none none = .ok m :=
-  effstim_flat_abmag_model wE thr atol rtol _ m band [2, 4] [1, 1] phys_pos Transc.real_lawful rfl rfl
-    (band_waveset thr) (band_samples wE) (by rw [band_A]; norm_num) (by rw [band_B]; norm_num)
+  effstim_flat_abmag_model wE thr atol rtol _ m band [2, 4] [1, 1] none phys_pos Transc.real_lawful rfl rfl
+    (band_grid thr) (band_samples wE) (by rw [band_A]; norm_num) (by rw [band_B]; norm_num)
 
 /-- the flat-FLAM observation of the examples below: FLAM effective stimulus 3, pivot `sqrt 8 ≠ 0` -/
 theorem wFlat_flam (thr atol rtol : ℝ) :
     effstim wE thr atol rtol (obs (.leaf (.constFlux 3 .flam))) .flam none none none = .ok 3 :=
-  effstim_flat_flam_model wE thr atol rtol _ 3 band [2, 4] [1, 1] phys_pos rfl rfl (band_waveset thr)
+  effstim_flat_flam_model wE thr atol rtol _ 3 band [2, 4] [1, 1] none phys_pos rfl rfl (band_grid thr)
     (band_samples wE) (by norm_num) (by rw [band_B]; norm_num)
 
 theorem wPivot (thr : ℝ) : pivot wE thr band none = .ok (Real.sqrt 8) := by
-  rw [pivot_def wE thr _ _ _ (band_waveset thr) (band_samples wE), band_A, band_B, if_neg (by norm_num)]
+  rw [pivot_def wE thr _ none _ _ (band_grid thr) (band_samples wE), band_A, band_B, if_neg (by norm_num)]
   norm_num [wE]
 
 theorem wPivot_ne : Real.sqrt 8 ≠ 0 := by
@@ -475,7 +484,7 @@ example (thr atol rtol : ℝ) : (0 : ℝ) < 3 := effstim_flam_pos wE thr atol rt
 example (thr atol rtol : ℝ) :
     effstim wE thr atol rtol (obs (.leaf (.constFlux 3 .flam))) .stmag none none none =
       convertOne wE.P wE.T (plainSamp (Real.sqrt 8)) .flam .stmag 3 :=
-  effstim_stmag_converted_at_pivot wE phys_pos thr atol rtol _ 3 _ (wFlat_flam thr atol rtol) wPivot_ne
+  effstim_stmag_converted_at_pivot wE phys_pos thr atol rtol _ none 3 _ (wFlat_flam thr atol rtol) wPivot_ne
 
 example (thr atol rtol : ℝ) :
     effstim wE thr atol rtol (obs (.leaf (.constFlux 3 .flam))) .stmag none none none =
@@ -485,40 +494,59 @@ example (thr atol rtol : ℝ) :
 example (thr atol rtol : ℝ) :
     effstim wE thr atol rtol (obs (.leaf (.constFlux 3 .flam))) .photlam none none none =
       .ok (3 * Real.sqrt 8 / (wE.P.h * wE.P.c)) :=
-  effstim_photlam_value wE thr atol rtol _ 3 _ band rfl (wFlat_flam thr atol rtol) (wPivot thr)
+  effstim_photlam_value wE thr atol rtol _ 3 _ band none rfl (wFlat_flam thr atol rtol) (wPivot thr)
 
 example (thr atol rtol : ℝ) :
     effstim wE thr atol rtol (obs (.leaf (.constFlux 3 .flam))) .photnu none none none =
       .ok (3 * Real.sqrt 8 / (wE.P.h * wE.P.c) * Real.sqrt 8 ^ 2 / wE.P.c) :=
-  effstim_photnu_value wE thr atol rtol _ 3 _ band rfl (wFlat_flam thr atol rtol) (wPivot thr)
+  effstim_photnu_value wE thr atol rtol _ 3 _ band none rfl (wFlat_flam thr atol rtol) (wPivot thr)
 
 example (thr atol rtol : ℝ) :
     effstim wE thr atol rtol (obs (.leaf (.constFlux 3 .flam))) .fnu none none none =
       .ok (3 * Real.sqrt 8 ^ 2 / wE.P.c) :=
-  effstim_fnu_value wE phys_pos thr atol rtol _ 3 _ band rfl (wFlat_flam thr atol rtol) (wPivot thr) wPivot_ne
+  effstim_fnu_value wE phys_pos thr atol rtol _ 3 _ band none rfl (wFlat_flam thr atol rtol) (wPivot thr) wPivot_ne
 
 example (thr atol rtol : ℝ) :
     effstim wE thr atol rtol (obs (.leaf (.constFlux 3 .flam))) (.jy 1) none none none =
       .ok (3 * Real.sqrt 8 ^ 2 / wE.P.c / (1 * wE.P.jyFnu)) :=
-  effstim_jy_value wE phys_pos thr atol rtol _ 3 _ 1 band rfl (wFlat_flam thr atol rtol) (wPivot thr) wPivot_ne
+  effstim_jy_value wE phys_pos thr atol rtol _ 3 _ 1 band none rfl (wFlat_flam thr atol rtol) (wPivot thr) wPivot_ne
 
 example (thr atol rtol : ℝ) :
     effstim wE thr atol rtol (obs (.leaf (.constFlux 3 .flam))) .abmag none none none =
       toMag wE.T (3 * Real.sqrt 8 ^ 2 / wE.P.c / wE.P.abZero) :=
-  effstim_abmag_value wE phys_pos thr atol rtol _ 3 _ band rfl (wFlat_flam thr atol rtol) (wPivot thr) wPivot_ne
+  effstim_abmag_value wE phys_pos thr atol rtol _ 3 _ band none rfl (wFlat_flam thr atol rtol) (wPivot thr) wPivot_ne
 
 /-- with all constants 1 the zero points are `10^0`, i.e. `zp = 0` -/
 example (thr atol rtol : ℝ) :
     effstim wE thr atol rtol (obs (.leaf (.constFlux 3 .flam))) .stmag none none none =
       .ok (-(5/2) * wE.T.log10 3 - 0) :=
-  effstim_stmag_of_flam wE Transc.real_lawful thr atol rtol _ 3 0 (by simp [wE, Witness.phys]) (wFlat_flam thr atol rtol)
+  effstim_stmag_of_flam wE Transc.real_lawful thr atol rtol _ none 3 0 (by simp [wE, Witness.phys]) (wFlat_flam thr atol rtol)
 
 example (thr atol rtol : ℝ) :
     effstim wE thr atol rtol (obs (.leaf (.constFlux 3 .flam))) .abmag none none none =
       .ok (-(5/2) * wE.T.log10 (3 * Real.sqrt 8 ^ 2 / wE.P.c) - 0) :=
-  effstim_abmag_of_fnu wE phys_pos Transc.real_lawful thr atol rtol _ 3 (Real.sqrt 8) _ 0 band
+  effstim_abmag_of_fnu wE phys_pos Transc.real_lawful thr atol rtol _ 3 (Real.sqrt 8) _ 0 band none
     (by simp [wE, Witness.phys]) rfl (wFlat_flam thr atol rtol) (wPivot thr) wPivot_ne
-    (effstim_fnu_value wE phys_pos thr atol rtol _ 3 _ band rfl (wFlat_flam thr atol rtol) (wPivot thr) wPivot_ne)
+    (effstim_fnu_value wE phys_pos thr atol rtol _ 3 _ band none rfl (wFlat_flam thr atol rtol) (wPivot thr) wPivot_ne)
+
+/-- explicit wavelengths, given in descending order (`∫λP = −6`, `∫P/λ = −3/4` there): the flat-spectrum results
+hold on the caller's grid too — FNU, Jy and ABmag because the pivot is taken on the same wavelengths -/
+example (thr atol rtol : ℝ) :
+    effstim wE thr atol rtol (obs (.leaf (.constFlux 3 .fnu))) .fnu (some [4, 2]) none none = .ok 3 :=
+  effstim_flat_fnu_model wE thr atol rtol _ 3 band [4, 2] [1, 1] (some [4, 2]) phys_pos Transc.real_lawful rfl rfl
+    (band_grid_desc thr) (band_samples_desc wE) (by norm_num) (by rw [band_A_desc]; norm_num)
+    (by rw [band_B_desc]; norm_num)
+
+example (thr atol rtol m : ℝ) :
+    effstim wE thr atol rtol (obs (.leaf (.constFlux m .abmag))) .abmag (some [4, 2]) none none = .ok m :=
+  effstim_flat_abmag_model wE thr atol rtol _ m band [4, 2] [1, 1] (some [4, 2]) phys_pos Transc.real_lawful rfl rfl
+    (band_grid_desc thr) (band_samples_desc wE) (by rw [band_A_desc]; norm_num) (by rw [band_B_desc]; norm_num)
+
+example (thr atol rtol : ℝ) :
+    effstim wE thr atol rtol (obs (.leaf (.constFlux 3 (.jy 1)))) (.jy 1) (some [4, 2]) none none = .ok 3 :=
+  effstim_flat_jy_model wE thr atol rtol _ 3 band [4, 2] [1, 1] (some [4, 2]) phys_pos Transc.real_lawful 1 (by norm_num)
+    rfl rfl (band_grid_desc thr) (band_samples_desc wE) (by norm_num) (by rw [band_A_desc]; norm_num)
+    (by rw [band_B_desc]; norm_num)
 
 end witness
 
@@ -613,7 +641,7 @@ theorem effstim_scale_linear_model (u : FluxUnit K)
   cases sampleTree E o.model inw <;> simp only [Except.map]
   rename_i inp
   rw [zip_scale]
-  exact effstimOf_scale_linear E thr bm u hu _ _ k hk
+  exact effstimOf_scale_linear E thr bm wl u hu _ _ k hk
 
 /-- STmag and ABmag: the result is shifted by `−2.5 log₁₀ k`; a failing call fails in the same way -/
 theorem effstim_scale_mag_model (hT : E.T.Lawful) (u : FluxUnit K) (hu : u = .stmag ∨ u = .abmag) (hk : 0 < k)
@@ -642,7 +670,7 @@ theorem effstim_scale_mag_model (hT : E.T.Lawful) (u : FluxUnit K) (hu : u = .st
   cases sampleTree E o.model inw <;> simp only [Except.map]
   rename_i inp
   rw [zip_scale]
-  exact effstimOf_scale_mag E hT thr bm u hu _ _ k hk
+  exact effstimOf_scale_mag E hT thr bm wl u hu _ _ k hk
 
 /-- the hypotheses hold for `source * k` (`sm | Scale(k)`) observed through the same bandpass -/
 theorem scaled_source_samples (sm bm : Tree K)
@@ -670,7 +698,7 @@ example (thr atol rtol : ℝ) :
     (Witness.obs (.scale (.leaf (.constFlux 3 .flam)) 2)) 2 _ Witness.band rfl rfl
   rw [effstim_scale_mag_model wE thr atol rtol (Witness.obs (.leaf (.constFlux 3 .flam)))
     (Witness.obs (.scale (.leaf (.constFlux 3 .flam)) 2)) 2 none Transc.real_lawful .stmag (Or.inl rfl) (by norm_num) rfl hw hs,
-    effstim_stmag_of_flam wE Transc.real_lawful thr atol rtol _ 3 0 (by simp [wE, Witness.phys]) (wFlat_flam thr atol rtol)]
+    effstim_stmag_of_flam wE Transc.real_lawful thr atol rtol _ none 3 0 (by simp [wE, Witness.phys]) (wFlat_flam thr atol rtol)]
   rfl
 
 /-! ### effective wavelength -/
